@@ -185,13 +185,16 @@ inline Program gen_general(Tape & t, int size, const GenOpts & go) {
     p.ops.push_back(gen_source(t, 1));
     if (t.chance(1, 4)) p.ops.push_back(gen_source(t, (int) t.range(2, 255)));
     int nsig = (int) t.range(1, go.max_signals);
+    // one program in twelve has no FSR signal at all (VSR signals with annotations, the global annotation signal, user data): the
+    // repair path of jls_rd_open then ends with a pointer walk instead of an FSR rebuild (found late: F-C19-3)
+    const bool no_fsr = go.allow_vsr && t.chance(1, 12);
     struct Plan { int id; const DType * dt; StoredDef sd; bool fsr; int64_t first, written, total; Pattern pat; int64_t anno_ts; int64_t utc_id; int64_t utc; bool defined; Op def; bool utc_any = false; };
     std::vector<Plan> plans;
     for (int s = 0; s < nsig; ++s) {
         Plan pl;
         pl.id = s == 0 ? (int) t.pick(std::vector<int>{1, 2, 255, 9}) : 10 + s * 3;
         pl.dt = &DTYPES[t.below(N_DTYPES)];
-        pl.fsr = !(go.allow_vsr && s > 0 && t.chance(1, 8));
+        pl.fsr = !(go.allow_vsr && (no_fsr || (s > 0 && t.chance(1, 8))));
         int shape = go.small_defs_only ? (int) t.weighted({6, 3, 0, 0}) : (int) t.weighted({5, 3, 1, 2});
         pl.def = gen_signal(t, pl.id, 1, *pl.dt, shape);
         if (!pl.fsr) { pl.def.stype = 1; pl.def.rate = 0; }
@@ -283,6 +286,7 @@ inline Program gen_general(Tape & t, int size, const GenOpts & go) {
                 u.data.gen = true; u.data.seed = (uint64_t) t.raw() << 1; u.data.text = text;
                 if (big_left && t.chance(1, 6)) { u.data.n = (uint32_t) ((1 << 20) + t.range(-30, 100000)); --big_left; }
                 else u.data.n = (uint32_t) t.range(text ? 0 : 0, 100);
+                if (u.stor == 1 && t.chance(1, 10)) u.nulldata = true;   // rejected call (NULL data, size > 0): must leave no trace (seeded/C14d)
                 p.ops.push_back(u);
                 break;
             }
